@@ -9,7 +9,7 @@ open EupsModel EupsModel.Deps
 
 theorem depsLoop_nonrec_prods (db : Db) (req : Required)
     (recur : Prod → Nat → St → Option (List Entry × St)) (fresh : Prod → Option (List Str))
-    (top : Prod) (depth : Nat) :
+    (top : Prod) (depth : Nat) (hm : ∀ p, db.tableMissing p = false) :
     ∀ ds acc st out st', (∀ d ∈ ds, d.unsetup = false) →
       depsLoop db req recur fresh top false depth ds acc st = some (out, st') →
       out.map (·.prod) = acc.map (·.prod) ++ ds.map (target db req) := by
@@ -18,7 +18,7 @@ theorem depsLoop_nonrec_prods (db : Db) (req : Required)
   | nil => intro acc st out st' _ h; simp [depsLoop] at h; simp [h.1]
   | cons d ds ih =>
     intro acc st out st' hu h
-    rw [depsLoop_cons_setup _ _ _ _ _ _ _ _ _ _ _ (hu d (by simp))] at h
+    rw [depsLoop_cons_setup _ _ _ _ _ _ _ _ _ _ _ (hu d (by simp)) hm] at h
     have hu' : ∀ d ∈ ds, d.unsetup = false := fun x hx => hu x (by simp [hx])
     cases hr : resolve db req d with
     | none =>
@@ -34,14 +34,14 @@ theorem depsOf_nonrec_prods (db : Db) (hns : NoUnsetup db) (req : Required) (k :
     (st : St) (out : List Entry) (st' : St) (h : depsOf db (k + 1) req p false depth st = some (out, st')) :
     out.map (·.prod) = (db.table p).map (target db req) := by
   unfold depsOf at h
-  have := depsLoop_nonrec_prods db req _ _ p depth _ _ _ _ _ (table_noUnsetup hns p) h
+  have := depsLoop_nonrec_prods db req _ _ p depth (tableMissing_false hns) _ _ _ _ _ (table_noUnsetup hns p) h
   simpa using this
 
 /-- `[product] + tbl.dependencies(self)`: the product and what the lines of its table denote -/
 theorem directDeps_true (db : Db) (hns : NoUnsetup db) (p : Prod) (deps : List Prod)
-    (h : directDeps db p true = some deps) : deps = p :: (db.table p).map (target db []) := by
+    (h : directDeps db p true = .ok deps) : deps = p :: (db.table p).map (target db []) := by
   unfold directDeps at h
-  simp only [if_true] at h
+  simp only [if_true, tableMissing_false hns p, Bool.false_eq_true, if_false] at h
   have hpos : 0 < db.fuel := by unfold Db.fuel; exact Nat.mul_pos (by omega) (by omega)
   obtain ⟨k, hk⟩ : ∃ k, db.fuel = k + 1 := ⟨db.fuel - 1, by omega⟩
   rw [hk] at h
@@ -49,7 +49,7 @@ theorem directDeps_true (db : Db) (hns : NoUnsetup db) (p : Prod) (deps : List P
   | none => simp [hd] at h
   | some r =>
     obtain ⟨out, st'⟩ := r
-    simp only [hd, Option.map_some, Option.some.injEq] at h
+    simp only [hd, Except.ok.injEq] at h
     rw [← h, depsOf_nonrec_prods db hns [] k p 0 _ out st' hd]
 
 /-! ### what is opened, what is collected -/
@@ -239,8 +239,8 @@ theorem collect_post (db : Db) (hns : NoUnsetup db) (sb : Option SetupBy) (force
           exact hex
         rw [hex] at h
         cases hd : directDeps db p true with
-        | none => simp [hd] at h
-        | some deps =>
+        | error e => simp [hd] at h
+        | ok deps =>
           simp only [hd, if_true] at h
           have hdeps := directDeps_true db hns p deps hd
           subst hdeps
